@@ -110,7 +110,7 @@ Proof.
   destruct (Nat.eqb (i_ty it) T_PARAMETER || Nat.eqb (i_ty it) T_COMPUTATION) eqn:Epc.
   { assert (Hmv : mv_of (i_ty it) n_dimension = true).
     { apply orb_prop in Epc. destruct Epc as [E|E]; apply Nat.eqb_eq in E; rewrite E; [exact mv_par_dim | exact mv_comp_dim]. }
-    intros H. bind_inv H. bind_inv H. bind_inv H. rename a1 into it1. apply OK_inj_ in H. subst it'.
+    intros H. bind_inv H. bind_inv H. rename a0 into it1, H1 into H2. cbv zeta in H. bind_inv H. apply OK_inj_ in H. subst it'.
     pose proof (cosd_ext _ _ _ Hmv H2) as E1. eapply item_ext_trans; [exact E1|].
     match goal with |- item_ext _ (if ?c then _ else _) => destruct c end; [|apply item_ext_refl].
     assert (Et : i_ty it1 = i_ty it) by (destruct E1 as [Es _]; apply (f_equal fst) in Es; exact Es).
@@ -123,7 +123,7 @@ Proof.
   destruct (Nat.eqb (i_ty it) T_CALCOEF).
   { destruct (counts_equal _ _); intros H; inv H. apply item_ext_refl. }
   destruct (Nat.eqb_spec (i_ty it) T_CALMEAS) as [Hm|_].
-  { intros H. bind_inv H. destruct (negb (counts_equal _ _)); [discriminate|].
+  { intros H. destruct (negb (counts_equal _ _)); [discriminate|]. bind_inv H. rename a into itm, H0 into Hfold. bind_inv H. apply OK_inj_ in H. subst it'.
     assert (G : forall names a0 b, item_ext it a0 ->
               fold_left (fun acc n => do a <- acc; check_or_set_dimensionality a (fst (get_attr a (aidx (i_ty it) n)))) names (OK a0) = OK b ->
               item_ext it b).
@@ -133,7 +133,7 @@ Proof.
       - apply (IH a1 b); [|exact Hf]. eapply item_ext_trans; [exact E0|]. eapply cosd_ext; [|exact Ec].
         destruct E0 as [Es _]. apply (f_equal fst) in Es. cbn in Es. rewrite Es, Hm. exact mv_calm_dim.
       - exfalso. clear -Hf. induction names as [|x xs IHx]; cbn in Hf; [discriminate | auto]. }
-    eapply G; [apply item_ext_refl | exact H]. }
+    eapply G; [apply item_ext_refl | exact Hfold]. }
   destruct (Nat.eqb (i_ty it) T_SPLICE).
   { repeat match goal with
            | |- match ?c with _ => _ end = OK _ -> _ => destruct c
